@@ -29,7 +29,7 @@ func main() {
 		Rule: "case = one history of 6 polling ticks; before each tick 0..4 successful key generations are recorded through the repository's InsertBatchConfig/InsertEon/InsertEonPublicKey queries (one or several keyper sets, restarts of the same set, any order), both publication modes (gossip broadcast with signature check, callback), all three table scan orders of the in-memory Postgres; " +
 			"oracle: multiset of publications == multiset of recorded key generations (eon, key bytes, activation block, keyper-set index). distinct = (mode, scan order, per-tick counts, set layout); non-trivial = some tick had >=2 pending keys",
 		Assumptions: []string{
-			"the publication mechanism accepts everything offered (the property's proviso)",
+			"in two thirds of the histories the publication mechanism accepts everything offered (multiset equality asserted); in one third it refuses some eons, and only 'never handed over twice once accepted' is asserted",
 			"only eons of keyper sets the keyper belongs to are recorded (as finalizeDKG does)",
 			"relative to pgmem (in-memory PostgreSQL substitute; repository DB tests pass against it)",
 		},
@@ -39,6 +39,7 @@ func main() {
 			agg.Require("ticks", 1000)
 			agg.Require("ticks_with_multiple_pending", 200)
 			agg.Require("published", 1000)
+			agg.Require("ticks_with_refusal", 100)
 		},
 	})
 }
@@ -48,7 +49,9 @@ type pub struct {
 	Key                  string
 }
 
-func (p pub) String() string { return fmt.Sprintf("eon=%d act=%d cfg=%d key=%x", p.Eon, p.Activation, p.Cfg, p.Key) }
+func (p pub) String() string {
+	return fmt.Sprintf("eon=%d act=%d cfg=%d key=%x", p.Eon, p.Activation, p.Cfg, p.Key)
+}
 
 func runCase(env *vlib.Env, idx int, rep *vlib.Reporter) {
 	ctx := context.Background()
@@ -65,9 +68,26 @@ func runCase(env *vlib.Env, idx int, rep *vlib.Reporter) {
 	kp := fixtures.NewKeypers(env.Seed+uint64(idx%5), 3)
 	me := 1
 	cfg := dbfix.KeyperConfig(77, kp.Keys[me], kp.Keys[me], make([]byte, 32), 100)
+	// in a third of the cases the publication mechanism refuses some eons (every time they are
+	// offered); then only the upper bound of "exactly once" is asserted: nothing the mechanism
+	// accepted is ever handed over twice, and what it accepted is correct
+	refusing := idx%3 == 2
+	refused := map[uint64]bool{}
+	offered := 0
 	rec := &dbfix.RecMessaging{}
+	rec.Fail = func(_ int, m p2pmsg.Message) error {
+		offered++
+		if e, ok := m.(*p2pmsg.EonPublicKey); ok && refused[e.Eon] {
+			return fmt.Errorf("publication refused")
+		}
+		return nil
+	}
 	var cbGot []pub
 	cb := func(_ context.Context, k keyper.EonPublicKey) error {
+		offered++
+		if refused[k.Eon] {
+			return fmt.Errorf("publication refused")
+		}
 		cbGot = append(cbGot, pub{k.Eon, k.ActivationBlock, k.KeyperConfigIndex, string(k.PublicKey)})
 		return nil
 	}
@@ -112,6 +132,9 @@ func runCase(env *vlib.Env, idx int, rep *vlib.Reporter) {
 				return
 			}
 			batch = append(batch, pub{uint64(eon), uint64(cfgAct[nextCfg]), uint64(nextCfg), string(r.Bytes(96))})
+			if refusing && r.Chance(1, 3) {
+				refused[uint64(eon)] = true
+			}
 		}
 		// the keys become pending in a random order
 		for _, i := range r.Perm(len(batch)) {
@@ -125,6 +148,10 @@ func runCase(env *vlib.Env, idx int, rep *vlib.Reporter) {
 		var herr error
 		if rep.Guard("panic:tick", shape, func() { herr = h.VerifQueryAndHandle(ctx) }) {
 			return
+		}
+		if herr != nil && refusing {
+			rep.Obs("ticks_with_refusal", 1)
+			herr = nil
 		}
 		if herr != nil {
 			rep.Violationf("tick-error", map[string]any{"history": shape}, "polling step failed although publication accepts everything: %v", herr)
@@ -156,6 +183,24 @@ func runCase(env *vlib.Env, idx int, rep *vlib.Reporter) {
 		}
 	} else {
 		got = cbGot
+	}
+	if refusing {
+		// upper bound only: every accepted publication is a recorded key generation, at most once
+		cnt := map[string]int{}
+		for _, p := range want {
+			cnt[p.String()]++
+		}
+		for _, p := range got {
+			cnt[p.String()]--
+			if cnt[p.String()] < 0 {
+				rep.Violationf("accepted-key-published-again", map[string]any{"history": shape, "publication": p.String()[:60]}, "a key the publication mechanism had accepted was handed over again (or a key that was never recorded was published)")
+				return
+			}
+		}
+		rep.Obs("published", int64(len(got)))
+		rep.Obs("refusing_histories", 1)
+		rep.Eval("refusing/"+shape, multi)
+		return
 	}
 	ws, gs := render(want), render(got)
 	rep.Obs("published", int64(len(got)))
